@@ -15,4 +15,12 @@ cd spec
 for f in *.tla; do
   tla-sany "$f" > ../work/sany.log 2>&1 || { cat ../work/sany.log; echo "SANY failed on $f"; exit 1; }
 done
+cd ..
+python3 - <<'PY'
+import sys
+sys.path.insert(0, 'lib')
+import props
+n = props.build_cover()
+print("transition cover: %d inputs" % n)
+PY
 echo "setup ok"
